@@ -25,6 +25,7 @@ import (
 	"sort"
 	"strconv"
 	"strings"
+	"time"
 
 	"github.com/folbricht/desync"
 
@@ -405,6 +406,19 @@ func runC06(a vh.Args, o *vh.Oracle, r *vh.Result) error {
 			}
 			return c06TarInCheck(a, r, &tc)
 		}
+		if c.Level == "library-rows" {
+			var rc c06RowsCase
+			if err := readJSON(a.Replay, &rc); err != nil {
+				return err
+			}
+			for i := 0; i < 3; i++ {
+				x := rc
+				if err := c06RowsCheck(a, r, &x); err != nil {
+					return err
+				}
+			}
+			return nil
+		}
 		if c.Level == "library-stall" {
 			var sc c06StallCase
 			if err := readJSON(a.Replay, &sc); err != nil {
@@ -477,8 +491,33 @@ func runC06(a vh.Args, o *vh.Oracle, r *vh.Result) error {
 					blob = append(blob, seg...)
 				}
 				blob = append(blob, rng.Bytes(rng.Intn(200))...)
+				sparseIsland := false
+				if op == "make" && ii == inputs-2 {
+					// a sparse image: zeroes except for one small island of data (shorter than min) that sits shortly after
+					// the start of the second parallel chunker (n=2 starts it at 100.5*max), null-chunk grids unaligned
+					const mx = 256
+					blob = make([]byte, 201*mx)
+					at := 102*mx + mx/4 + rng.Intn(mx/4)
+					for i := 0; i < 24+rng.Intn(40); i++ {
+						blob[at+i] = byte(rng.Intn(255)) | 1
+					}
+					sparseIsland = true
+				}
+				if op == "make" && ii == inputs-1 {
+					// a sparse file: small islands of data between long runs of zeroes (null chunks of the maximum
+					// size, whose grid is not aligned between the parallel chunkers)
+					blob = nil
+					for k := 0; k < 3; k++ {
+						blob = append(blob, make([]byte, 300*(7+rng.Intn(8))+rng.Intn(299))...)
+						blob = append(blob, rng.Bytes(60+rng.Intn(500))...)
+					}
+					blob = append(blob, make([]byte, 300*(9+rng.Intn(8))+rng.Intn(299))...)
+				}
 				in = bkInput{Blob: blob}
 				c0.Min, c0.Avg, c0.Max = 48, 96, 300
+				if sparseIsland {
+					c0.Min, c0.Avg, c0.Max = 64, 128, 256
+				}
 			} else {
 				nch := 4 + rng.Intn(5)
 				if ii > 0 {
@@ -551,6 +590,11 @@ func runC06(a vh.Args, o *vh.Oracle, r *vh.Result) error {
 	if err := c06Stalls(a, r, rng); err != nil {
 		return err
 	}
+	tr := time.Now()
+	if err := c06Rows(a, r, rng); err != nil {
+		return err
+	}
+	r.Note("time many-rows family: %.1fs", time.Since(tr).Seconds())
 	if err := c06TarInputs(a, r, rng); err != nil {
 		return err
 	}
